@@ -108,6 +108,26 @@ def tlsh (lcap : Nat → Nat) (eff w chklen : Nat) (data : List Nat) (force : Bo
         ++ [swapNibbles (lcap n % 256), (q1 * 100 / q3 % 16) * 16 + q2 * 100 / q3 % 16]
         ++ body)
 
+/-- the digest as a function of the histogram alone: `bucket` = the 256 bucket counts, `ck` = the checksum bytes,
+    `n` = the input length.  `tlsh` is `encode` of the input's histogram and checksum (`Proofs.C19.spec_tlsh_is_encode`);
+    stated separately so that the header/body encoding — in particular the two quotients q·100/q3, exact integer
+    floor divisions — can be compared with the code on bucket arrays that no hashed input is known to produce. -/
+def encode (lcap : Nat → Nat) (eff : Nat) (bucket ck : List Nat) (n : Nat) (force : Bool) : Option (List Nat) :=
+  if n < 50 ∨ (force = false ∧ n < 256) then none else
+  let bk := bucket.take eff
+  let populated := (bk.filter (0 < ·)).length
+  if tooFew eff populated then none else
+  let q1 := kth bk (eff / 4 - 1)
+  let q2 := kth bk (eff / 2 - 1)
+  let q3 := kth bk (3 * (eff / 4) - 1)
+  let body := (List.range (eff / 4)).map fun m =>
+    let i := eff / 4 - 1 - m
+    code q1 q2 q3 (bk.getD (4 * i) 0) + 4 * code q1 q2 q3 (bk.getD (4 * i + 1) 0)
+      + 16 * code q1 q2 q3 (bk.getD (4 * i + 2) 0) + 64 * code q1 q2 q3 (bk.getD (4 * i + 3) 0)
+  some (ck.map swapNibbles
+        ++ [swapNibbles (lcap n % 256), (q1 * 100 / q3 % 16) * 16 + q2 * 100 / q3 % 16]
+        ++ body)
+
 /-! ### distance between two digest strings of the same configuration (reference `totalDiff`) -/
 
 def modDiff (x y r : Nat) : Nat :=
